@@ -4,24 +4,38 @@ import os
 import vlib
 import m_bitmap
 import m_volatile
+import m_guest
 
 
 def c09(ctx):
     m_bitmap.run(ctx)
 
 
+def both(ctx):
+    m_volatile.run(ctx)
+    m_guest.run(ctx)
+
+
+def c07(ctx):
+    m_volatile.run(ctx)
+    m_guest.run(ctx)
+    m_bitmap.traces(ctx)
+
+
 PROPS = {
+    "C02": m_guest.run,
+    "C03": m_guest.run,
     "C01": m_volatile.run,
     "C04": m_volatile.run,
-    "C05": m_volatile.run,
-    "C16": m_volatile.run,
+    "C05": both,
+    "C16": both,
     "C17": m_volatile.run,
-    "C18": m_volatile.run,
-    "C07": m_volatile.run,
+    "C18": both,
+    "C07": c07,
     "C09": c09,
 }
 
-REPLAY_MODULES = {"bitmap"}
+REPLAY_MODULES = {"bitmap", "volatile", "guest"}
 
 
 def replay(pid, path):
